@@ -121,7 +121,7 @@ pub fn run(args: &Args) -> Value {
                 }
             }));
             let tr = verif_trace::take();
-            let occ = occupancy(g.get_manager_ref());
+            let occ = if r.is_err() { vec![] } else { occupancy(g.get_manager_ref()) };
             push_case(which as usize, name, tr, occ, r.is_err(), &mut coq, &mut oracle_failures, &mut distinct, &mut peaks, ctx.clone());
             if r.is_err() {
                 break;
@@ -140,7 +140,7 @@ pub fn run(args: &Args) -> Value {
                     q.timestep(beta);
                 }));
                 let tr = verif_trace::take();
-                let occ = occupancy(q.get_manager_ref());
+                let occ = if r.is_err() { vec![] } else { occupancy(q.get_manager_ref()) };
                 push_case(5, "qmc.timestep", tr, occ, r.is_err(), &mut coq, &mut oracle_failures, &mut distinct, &mut peaks, ctx.clone());
                 if r.is_err() {
                     break;
